@@ -175,6 +175,19 @@ theorem upres_pRetract (T : List Tup) (id : Id) (x : Option Nat) : UPres T (pRet
       | exact h1
       | exact markChanged_uinv h1 (load_new' hl) rfl rfl
 
+theorem upres_pMergeInto (T : List Tup) (a b : Id) : UPres T (pMergeInto a b) := by
+  intro s tx e h
+  unfold pMergeInto
+  split
+  · exact h.same rfl
+  · rename_i tx1 y hl
+    have h1 := load_uinv h hl
+    repeat' split
+    all_goals first
+      | exact h1.same rfl
+      | exact h1
+      | exact markChanged_uinv h1 (load_new' hl) rfl rfl
+
 theorem upres_pCheck2 (T : List Tup) (a b : Id) (pred : Staged → Staged → Option Err) : UPres T (pCheck2 a b pred) := by
   intro s tx e h
   unfold pCheck2
@@ -304,6 +317,7 @@ macro "upres_chain" h:ident : tactic => `(tactic|
     | exact upres_pPurge _ _ _ _ _ _ $h
     | exact upres_pAssign _ _ _ _ _ _ $h
     | exact upres_pEdit _ _ _ _ _ _ _ _ _ _ $h
+    | exact upres_pMergeInto _ _ _ _ _ _ $h
     | exact upres_pCheck2 _ _ _ _ _ _ _ $h
     | exact upres_pExpectStatus _ _ _ _ _ _ $h
     | exact upres_pFail _ _ _ _ _ $h
@@ -314,6 +328,7 @@ macro "upres_chain" h:ident : tactic => `(tactic|
     | exact upres_pBind _ _ _
     | exact upres_pAssign _ _ _
     | exact upres_pEdit _ _ _ _ _ _ _
+    | exact upres_pMergeInto _ _ _
     | exact upres_pCheck2 _ _ _ _
     | exact upres_pExpectStatus _ _ _
     | exact upres_pStageNewPlain _ _ _ rfl
@@ -396,5 +411,6 @@ theorem applyClause_uinv (c : Clause) (s : Store) (tx : Tx) (e : Option Err) (hw
   | correct t b => simp only [applyClause]; (repeat' split) <;> upres_chain h
   | transition t to expect => simp only [applyClause]; (repeat' split) <;> upres_chain h
   | setRetention t v expect => simp only [applyClause]; (repeat' split) <;> upres_chain h
+  | merge a b expect => simp only [applyClause]; (repeat' split) <;> upres_chain h
 
 end AndaVerif.Tx
